@@ -29,7 +29,7 @@ import (
 // signal from the parent - or, without trapping, the first signal at all - terminates it
 // exactly once with a reason that wraps the signal's reason, and nothing runs afterwards.
 var recTrap = kit.NewRecorder("C05", "trap",
-	"one receiver actor (top-level or child of a process; trapping in 3 of 4 cases) linked to a generated subset of {pid, name, alias, event} of 1-3 targets; 2-8 steps of {unregister name, delete alias, unregister event, terminate target (normal/custom/kill/panic), SendExit from a stranger, from the node, from the parent}; "+
+	"one receiver actor (top-level or child of a process; trapping in 3 of 4 cases) linked to a generated subset of {pid, name, alias, event} of 1-3 targets; 2-8 steps of {unregister name, delete alias, unregister event, terminate target (normal/custom/kill/panic), SendExit from a stranger, from the node, from the parent}, and for a receiver that is still running optionally a graceful Node.Stop at the end (it returns, the receiver terminates once with reason shutdown); "+
 		"oracle: model of the trap rule - every non-parent signal arrives once as a message of the right kind with identity and reason and the receiver stays alive; a parent signal (or any signal when not trapping) terminates it once with the signal's reason; "+
 		"non-trivial = at least one signal of a kind other than MessageExitPID reached a trapping receiver, or the receiver was terminated by a signal; distinct by history")
 
@@ -365,7 +365,35 @@ func TestTrap(t *testing.T) {
 				}
 			}
 		}
+		// a graceful node stop is a shutdown every process obeys, trapping or not, whoever spawned
+		// it: Node.Stop returns, and the receiver has terminated - once - with the shutdown reason
+		stoppedGracefully := false
+		if !terminated && rapid.Bool().Draw(t, "final_node_stop") {
+			done := make(chan struct{})
+			go func() { node.Stop(); close(done) }()
+			select {
+			case <-done:
+			case <-time.After(15 * time.Second):
+				fatalf("Node.Stop did not return within 15 s (receiver trap=%v, top-level=%v)", trap, topLevel)
+			}
+			var terms []kit.Event
+			for _, e := range probe.EventsOf("recv") {
+				if e.Kind == "terminate" {
+					terms = append(terms, e)
+				}
+			}
+			if len(terms) != 1 {
+				fatalf("after Node.Stop the receiver's terminate callback has run %d times (trap=%v, top-level=%v)", len(terms), trap, topLevel)
+			}
+			if r := terms[0].Reason; r == nil || !(errors.Is(r, gen.TerminateReasonShutdown) || strings.Contains(r.Error(), gen.TerminateReasonShutdown.Error())) {
+				fatalf("the receiver was stopped by Node.Stop and its terminate callback got reason %v, not shutdown", r)
+			}
+			stoppedGracefully = true
+		}
 		var labels []string
+		if stoppedGracefully {
+			labels = append(labels, "node-stop")
+		}
 		if otherKinds {
 			labels = append(labels, "non-pid-signal-trapped")
 		}
